@@ -49,7 +49,10 @@ def cases(draw):
                 mode=draw(st.sampled_from(["diff", "adv", "both", "both", "diff", "off"])), frac=draw(st.floats(0.05, 0.98)),
                 share=draw(st.floats(0.05, 0.95)), dt=draw(st.sampled_from([1, 60, 600, 3600, 86400])),
                 scheme=draw(st.sampled_from(["", "EF", "RK2", "RK4"])), n=draw(st.sampled_from([12, 60])),
-                hspeed=draw(st.sampled_from([0.0, 0.4, 0.9])), steps=draw(st.integers(1, 4)))
+                hspeed=draw(st.sampled_from([0.0, 0.4, 0.9])), steps=draw(st.integers(1, 4)),
+                # between two steps some particles die and are removed while as many new ones are released
+                # (the number of particles stays the same, the survivors move up in the arrays)
+                swap=draw(st.sampled_from([0, 0, 2, 5])))
 
 
 @st.composite
@@ -213,6 +216,22 @@ def oracle(case) -> core.CaseResult:
                 res.fail("reflection_value",
                          f"step {step} particle {k} at ({X0[k]}, {Y0[k]}): Z {Z0[k]} + w*dt {W[k] * dt} -> {Z1[k]}, expected "
                          f"the value reflected at 0 and h = {hstart[k]}: {np.where(want > hstart, 2 * hstart - want, want)[k]}")
+        if case.get("swap") and step < case["steps"] - 1 and bool(np.all(state.alive)) and len(state) > case["swap"]:
+            k = int(case["swap"])
+            al = np.array(state["alive"]).copy()
+            al[:k] = False
+            state["alive"] = al
+            state.compactify()
+            Xn, Yn = rng.uniform(xlo, xhi, k), rng.uniform(ylo, yhi, k)
+            Zn = rng.uniform(0, 1, k) * ref_depth(H, Xn, Yn)[0]
+            state.append(X=Xn, Y=Yn, Z=Zn)
+            Wn = rng.uniform(-1, 1, k) * wmax
+            an = rng.uniform(0, 2 * np.pi, k)
+            U, V, W = (np.concatenate([U[k:], sp * np.cos(an)]), np.concatenate([V[k:], sp * np.sin(an)]),
+                       np.concatenate([W[k:], Wn]))
+            force.U, force.V = U, V
+            force.variables["w"] = W
+            res.cls("particles_swapped_between_steps")
     if kw.get("vertdiff") or case["vadv"]:
         res.nontrivial = nontriv
     return res
